@@ -2055,7 +2055,7 @@ fn run(ctx: &mut Ctx) {
     // ---- pairs --------------------------------------------------------------------------
     let all_pairs = nt * nt * 3;
     let thorough = ctx.thorough();
-    ctx.phase("pairs", if thorough { all_pairs } else { 12_000 });
+    ctx.phase("pairs", if thorough { all_pairs } else { 10_000 });
     while let Some(k) = ctx.next_case() {
         let (f, i, j) = if thorough {
             (FORMATS[(k % 3) as usize], ((k / 3) % nt) as usize, (k / 3 / nt) as usize)
@@ -2080,7 +2080,7 @@ fn run(ctx: &mut Ctx) {
     }
 
     // ---- random datasets ----------------------------------------------------------------
-    for (phase, total, with_prefixes) in [("prefixes", ctx.by_tier(2_000u64, 30_000), true), ("random", ctx.by_tier(9_000u64, 200_000), false)] {
+    for (phase, total, with_prefixes) in [("prefixes", ctx.by_tier(1_800u64, 30_000), true), ("random", ctx.by_tier(7_000u64, 200_000), false)] {
         ctx.phase(phase, total);
         while let Some(k) = ctx.next_case() {
             if with_prefixes && !ctx.within(0.4) {
@@ -2137,7 +2137,7 @@ fn main() {
         "N-Quads cannot carry an empty named graph: only quads are compared, not the named-graph catalog",
         "The prefix table of the source database is part of the input for the 'prefixes' phase (generate_turtle emits it); prefix names there include the empty name, names that are also legal IRI schemes and names that are not",
     ];
-    spec.quick_budget_s = 90;
+    spec.quick_budget_s = 120;
     spec.thorough_budget_s = 800;
     kvcore::run(spec, run);
 }
